@@ -474,8 +474,24 @@ template <bool A> static void fuzz_xfm(Rng &r, long &cnt)
   rand_box(r, lo, hi, 3);
   // M = R1 * diag(s) * R2 with max(s)/min(s) <= 64, or a small-integer matrix (exact arithmetic)
   float m[3][3], t[3];
-  if (r.k(4) == 0) {
+  int fam = r.k(5);
+  if (fam == 0) {
     for (int i = 0; i < 3; i++) { for (int j = 0; j < 3; j++) m[i][j] = float(r.k(7) - 3); t[i] = float(r.k(21) - 10); }
+  } else if (fam == 1) {
+    // exactly diagonal / axis-permuting linear part with signed float scales (mirrors, quarter turns, point reflection),
+    // sometimes with a zero column: every off-pattern entry is exactly 0
+    static const int perms[6][3] = {{0, 1, 2}, {0, 1, 2}, {1, 0, 2}, {0, 2, 1}, {2, 1, 0}, {1, 2, 0}};
+    const int *pm = perms[r.k(6)];
+    for (int i = 0; i < 3; i++) { for (int j = 0; j < 3; j++) m[i][j] = 0.f; t[i] = r.coord(); }
+    bool anyneg = false;
+    for (int j = 0; j < 3; j++) {
+      float sc = float((0.25 + r.u() * 4) * (r.k(2) ? -1 : 1));
+      if (r.k(3) == 0) sc = r.k(2) ? -1.f : 1.f;
+      anyneg = anyneg || sc < 0;
+      m[pm[j]][j] = sc;
+    }
+    if (!anyneg) { int j = r.k(3); m[pm[j]][j] = -m[pm[j]][j]; }
+    if (r.k(8) == 0) { int j = r.k(3); m[pm[j]][j] = 0.f; }
   } else {
     ld R1[3][3], R2[3][3], s[3];
     rand_rot(r, R1); rand_rot(r, R2);
@@ -621,6 +637,82 @@ template <int N> static void fuzz_ray(Rng &r, long &cnt)
   }
 }
 
+// center(): the midpoint within the rounding the expression .5f*lower + .5f*upper allows.
+//   float: one rounding of the exact midpoint (|error| <= 2^-24 |mid|, + one denormal ulp when a halving underflows); exact when the
+//          midpoint is representable and no bound is below 2^-125;
+//   int  : the route goes through float: exact truncated midpoint when |lower|,|upper| <= 2^23, else within 1 + 2^-22 max(|lower|,|upper|).
+//          (boxes with both bounds above INT_MAX-128 are not generated: float(bound) rounds to 2^31, whose conversion back is undefined)
+static float rand_mag(Rng &r)
+{
+  switch (r.k(8)) {
+  case 0: return (r.k(2) ? 1.f : -1.f) * std::numeric_limits<float>::max();
+  case 1: return float((r.k(31) - 15)) * std::ldexp(1.f, 124);
+  case 2: return float((r.u() * 2 - 1) * 3.4e38);
+  case 3: return float((r.u() * 2 - 1) * std::pow(2.0, r.k(250) - 125));
+  default: return r.coord();
+  }
+}
+static int mode_fuzzc(unsigned long long seed, long n)
+{
+  Rng r(seed * 7919 + 13);
+  long cnt = 0;
+  for (long it = 0; it < n; it++) {
+    vec3f lo, hi;
+    for (int i = 0; i < 3; i++) { float a = rand_mag(r), b = rand_mag(r); lo[i] = std::min(a, b); hi[i] = std::max(a, b); }
+    box3f b3(lo, hi);
+    vec3f c3 = b3.center(), c3f = center(b3);
+    float c1 = range1f(lo[0], hi[0]).center();
+    for (int i = 0; i < 3; i++) {
+      ld mid = ((ld)lo[i] + (ld)hi[i]) / 2;
+      ld tol = EPS * std::fabs(mid) + std::ldexp((ld)1, -149);
+      bool repr = (ld)(float)mid == mid && std::fabs(lo[i]) >= std::ldexp(1.f, -125) && std::fabs(hi[i]) >= std::ldexp(1.f, -125);
+      float got = c3[i];
+      cnt++;
+      bool bad = !(std::fabs((ld)got - mid) <= tol) || (repr && (ld)got != mid) || c3f[i] != got || (i == 0 && c1 != got);
+      if (bad) {
+        std::ostringstream o;
+        o << "float component " << i << " lower=" << hx(lo[i]) << " upper=" << hx(hi[i]) << " center()=" << hx(got) << " center(box)=" << hx(c3f[i])
+          << " range1f.center()=" << hx(c1) << " midpoint=" << (double)mid << (repr ? " (representable: must be exact)" : "");
+        fail("center_midpoint", o.str());
+        break;
+      }
+    }
+  }
+  for (long it = 0; it < n; it++) {
+    vec3i lo, hi;
+    for (int i = 0; i < 3; i++) {
+      long long a, b;
+      int fam = r.k(4);
+      long long span = fam == 0 ? 1000 : fam == 1 ? (1LL << 23) : 2147483647LL - 128;
+      a = (long long)(r.g() % (unsigned long long)(2 * span + 1)) - span;
+      b = (long long)(r.g() % (unsigned long long)(2 * span + 1)) - span;
+      lo[i] = (int)std::min(a, b); hi[i] = (int)std::max(a, b);
+    }
+    box3i b3(lo, hi);
+    vec3i c3 = b3.center();
+    int c1 = range1i(lo[0], hi[0]).center();
+    for (int i = 0; i < 3; i++) {
+      ld mid = ((ld)lo[i] + (ld)hi[i]) / 2;
+      ld mx = std::max(std::fabs((ld)lo[i]), std::fabs((ld)hi[i]));
+      bool small = mx <= (ld)(1 << 23);
+      ld want = std::trunc(mid);
+      cnt++;
+      bool bad = small ? ((ld)c3[i] != want) : !(std::fabs((ld)c3[i] - mid) <= 1 + std::ldexp(mx, -22));
+      if (i == 0 && c1 != c3[0]) bad = true;
+      if (bad) {
+        std::ostringstream o;
+        o << "int component " << i << " lower=" << lo[i] << " upper=" << hi[i] << " center()=" << c3[i] << " range1i.center()=" << c1 << " midpoint=" << (double)mid
+          << (small ? " (|bounds| <= 2^23: must be the exact truncated midpoint)" : "");
+        fail("center_midpoint", o.str());
+        break;
+      }
+    }
+  }
+  nchecks = cnt;
+  std::cout << "DONE checks=" << nchecks << " fails=" << nfail << " known=" << nknown << "\n";
+  return 0;
+}
+
 static int mode_fuzz(unsigned long long seed, long n)
 {
   Rng r(seed);
@@ -644,6 +736,7 @@ int main(int argc, char **argv)
   if (mode == "cases") return mode_cases();
 #ifndef C05_ONLY_CASES
   if (mode == "exh") return mode_exh(argc > 2 && std::string(argv[2]) == "thorough");
+  if (mode == "fuzzc") return mode_fuzzc(argc > 2 ? std::strtoull(argv[2], nullptr, 10) : 1, argc > 3 ? std::atol(argv[3]) : 1000);
   if (mode == "fuzz") return mode_fuzz(argc > 2 ? std::strtoull(argv[2], nullptr, 10) : 1, argc > 3 ? std::atol(argv[3]) : 1000);
 #endif
   return 2;
